@@ -65,7 +65,8 @@ def child(mod, prop, tier, seed, spec, out):
     ctx = common.Ctx(prop, tier, seed, spec)
     rc = 0
     try:
-        mod.run_shard(ctx, spec)
+        with common.scratch_dir():
+            mod.run_shard(ctx, spec)
     except common.Inconclusive as e:
         ctx.count('inconclusive')
         print('INCONCLUSIVE', e)
@@ -75,6 +76,7 @@ def child(mod, prop, tier, seed, spec, out):
         traceback.print_exc()
         rc = 4
     res = ctx.result()
+    out = os.path.abspath(out)
     with open(out, 'w') as f:
         json.dump(res, f)
     return rc
